@@ -206,12 +206,26 @@ def analyse_string_position(position, expose, tally, timeout_ms=60000):
                     res["findings"].append(("altered", _model_str(m, s), "hand-quoted literal is re-interpreted by Python (escape sequence)"))
                 elif r == "unknown":
                     res["status"] = "inconclusive"
+            elif k == "other" and _mentions(v, s.term) and "py_" in str(v.decl().name() if z3.is_app(v) else ""):
+                # the literal goes through a function the model leaves uninterpreted (replace / re.sub / translate ...)
+                # before it is spliced into the code: whether that escaping is adequate is decided by trying the
+                # adversarial literal corpus on the real code
+                seen_lit = True
+                res["occurrences"].append("transformed by %s" % v.decl().name())
+                res["findings"].append(("search", None, "the literal is transformed by %s (uninterpreted in the model) before it "
+                                        "is spliced into the code" % v.decl().name()))
             elif k == "other":
                 res["status"] = "inconclusive"
                 res["note"] = "unrecognised piece in the generated text: %s" % str(v)[:80]
         if not seen_lit:
             res["findings"].append(("dropped", "x", "the literal does not appear in the generated code"))
     return res
+
+
+def _mentions(t, x):
+    if t.eq(x):
+        return True
+    return any(_mentions(c, x) for c in t.children())
 
 
 def _model_str(m, s):
